@@ -116,8 +116,17 @@ func c07Families(tier fw.Tier) []c07Family {
 		fbStride = 1
 	}
 	bases := docgen.FaultBases(true)
+	// PRE: a byte-order mark / a zero-width no-break space in front of (and behind) every string of <= a12-1 tokens:
+	// what one entry point of a parser strips, the other must strip, too
+	tpre := docgen.TokenSpace{Alphabet: c07A12, MaxLen: a12 - 1}
 	return []c07Family{
 		{"A12", t12.Count(), t12.At, true},
+		{"PRE", tpre.Count() * 2, func(i int) string {
+			if i%2 == 0 {
+				return "\ufeff" + tpre.At(i/2)
+			}
+			return tpre.At(i/2) + "\ufeff"
+		}, true},
 		{"A10", t10.Count(), t10.At, false},
 		{"FB", fb.Count() / fbStride, func(i int) string { return fb.At(i * fbStride).Text() }, false},
 		{"FD1", c07FD1Count(bases), func(i int) string { return c07FD1At(i) }, false},
